@@ -12,6 +12,8 @@ Translated from the source on every run (fail closed on any shape the fragment d
   cw_queue_short         the RuntimeError guard of get_placements                (:361)
   cw_not_loaded          the `continue` test of run_inference                    (:890)
   cw_goal_least_slack    the goal string that enables the least-slack ordering   (:876, :942)
+  cw_strategy_eq/_lt     ExecutionStrategy.__eq__ / __lt__ (workload/strategy.py:55-67), over abstract Resources
+                         comparisons; they break ties of the sort key
 
 All quantities are microsecond integers (EventTime arithmetic is integer arithmetic: C16).
 """
@@ -230,6 +232,34 @@ def frag_clockwork(repo):
         die(f, "run_inference: the two `self._goal == \"least_slack\"` tests changed")
     out.append("(* the inference loop reorders its queue only for the goal string \"least_slack\" *)\n"
                "Definition cw_goal_least_slack_tests : Z := %d.\n" % len(goals))
+    # ---- ExecutionStrategy.__eq__ / __lt__ (third component of the sort key)
+    smod = load(repo, "workload/strategy.py")
+    ES = find_class(smod, "ExecutionStrategy")
+    if ["total_ordering"] not in [attr_chain(d) for d in ES.decorator_list]:
+        die(ES, "ExecutionStrategy is no longer @total_ordering")
+    sub = _Subst([(_e(a), b) for a, b in (("self.batch_size", "bs1"), ("other.batch_size", "bs2"), ("self.runtime", "rt1"),
+                                          ("other.runtime", "rt2"), ("self.resources", "r1"), ("other.resources", "r2"))])
+    cmps = dict(Z_CMPS)
+    cmps[("Res", "==", "Res")] = ("(res_eq {a} {b})", False)
+    cmps[("Res", "<", "Res")] = ("(res_lt {a} {b})", False)
+    for py, gn, par in (("__eq__", "cw_strategy_eq", "res_eq"), ("__lt__", "cw_strategy_lt", "res_lt")):
+        f = sub.visit(find_func(ES, py))
+        tr = Tr({"bs1": ("bs1", "Z"), "bs2": ("bs2", "Z"), "rt1": ("rt1", "Z"), "rt2": ("rt2", "Z"), "r1": ("r1", "Res"), "r2": ("r2", "Res")},
+                {}, {}, {}, dict(Z_BINOPS), cmps)
+        body = py2v.fn_body(tr, py2v.strip_body(f.body, py2v.is_logger_call), False, "bool")
+        out.append("Definition %s {R : Type} (%s : R -> R -> bool) (bs1 rt1 : Z) (r1 : R) (bs2 rt2 : Z) (r2 : R) : bool :=\n  %s.\n"
+                   % (gn, par, body))
+    for prop, fld in (("batch_size", "_batch_size"), ("runtime", "_runtime"), ("resources", "_resources")):
+        f = find_func(ES, prop)
+        b = py2v.strip_body(f.body, py2v.is_logger_call)
+        if not (len(b) == 1 and isinstance(b[0], ast.Return) and attr_chain(b[0].value) == ["self", fld]):
+            die(f, "ExecutionStrategy.%s is no longer a plain getter" % prop)
+    # get_fastest_strategy: min over the strategies by runtime
+    EStr = find_class(smod, "ExecutionStrategies")
+    f = find_func(EStr, "get_fastest_strategy")
+    rets = [n for n in ast.walk(f) if isinstance(n, ast.Return)]
+    if not any(ast.dump(r.value) == _e("min(self._strategies, key=lambda s: s.runtime)") for r in rets if r.value is not None):
+        die(f, "get_fastest_strategy is no longer min(self._strategies, key=lambda s: s.runtime)")
     return "\n".join(out)
 
 
